@@ -1435,12 +1435,14 @@ def scenario_programs(rng, n):
         else:
             # flash, mutate, flash
             p = rng.choice(LIST_N)
-            cur = [rng.choice([0, 1, 1, 255, rng.randint(0, 9)]) for _ in range(rng.randint(1, 4))]
+            cur = [rng.choice([0, 1, 1, 255, rng.randint(0, 9)]) for _ in range(rng.randint(1, 5))]
             body = [("assign", p, repr(cur)), ("flash", p)]
             muts = []
             for _ in range(rng.randint(1, 3)):
-                if cur and rng.random() < 0.35:
-                    v = rng.choice(cur); cur.remove(v); muts.append(("remove", p, str(v)))
+                if cur and rng.random() < 0.45:
+                    dup = [v for v in cur if cur.count(v) > 1 and cur.index(v) + 1 != len(cur) - cur[::-1].index(v)]
+                    v = rng.choice(dup if dup and rng.random() < 0.7 else cur)      # remove() takes the FIRST match
+                    cur.remove(v); muts.append(("remove", p, str(v)))
                 else:
                     v = rng.choice([0, 1, 255, rng.randint(0, 9)]); cur.append(v); muts.append(("append", p, str(v)))
             if kind == 4:
@@ -1739,24 +1741,61 @@ def layer_b(ctx, stats):
 SIMPLE_KINDS = ("assign", "rt", "append", "remove", "len", "flash", "glyph", "val", "aug", "tuple")
 
 
-def deletions(p):
-    """every program obtained by deleting one simple statement (at any depth; the control structure, hence the run-time
-    decisions of the recorded path, stays as it is)"""
+def stmt_paths(p):
+    """index paths of the simple statements of a program (at any depth) that can be deleted without emptying a block"""
     out = []
 
-    def rec(b, rebuild):
+    def rec(b, pre):
         for i, st in enumerate(b):
             if st[0] in SIMPLE_KINDS and len(b) > 1:
-                out.append(rebuild(b[:i] + b[i + 1:]))
+                out.append(pre + (i,))
             elif st[0] == "if":
-                rec(st[1], lambda nb, i=i, st=st: rebuild(b[:i] + [(st[0], nb) + tuple(st[2:])] + b[i + 1:]))
-                rec(st[2], lambda nb, i=i, st=st: rebuild(b[:i] + [(st[0], st[1], nb) + tuple(st[3:])] + b[i + 1:]))
+                rec(st[1], pre + (i, 1)); rec(st[2], pre + (i, 2))
             elif st[0] in ("while", "main"):
-                rec(st[1], lambda nb, i=i, st=st: rebuild(b[:i] + [(st[0], nb)] + b[i + 1:]))
+                rec(st[1], pre + (i, 1))
             elif st[0] == "for":
-                rec(st[2], lambda nb, i=i, st=st: rebuild(b[:i] + [(st[0], st[1], nb)] + b[i + 1:]))
-    rec(list(p), lambda nb: nb)
+                rec(st[2], pre + (i, 2))
+    rec(p, ())
     return out
+
+
+def delete_paths(p, paths):
+    """the program without the statements at the given paths (the control structure, hence the run-time decisions of the
+    recorded path, stays as it is); None if a block that must not be empty would become empty"""
+    drop = set(paths)
+
+    def rec(b, pre):
+        out = []
+        for i, st in enumerate(b):
+            pa = pre + (i,)
+            if pa in drop:
+                continue
+            if st[0] == "if":
+                st = (st[0], rec(st[1], pa + (1,)), rec(st[2], pa + (2,))) + tuple(st[3:])
+            elif st[0] in ("while", "main"):
+                st = (st[0], rec(st[1], pa + (1,)))
+            elif st[0] == "for":
+                st = (st[0], st[1], rec(st[2], pa + (2,)))
+            out.append(st)
+        return out
+
+    def ok(b):
+        for st in b:
+            if st[0] == "if" and (not st[1] or not ok(st[1]) or not ok(st[2])):
+                return False
+            if st[0] in ("while", "main") and (not st[1] or not ok(st[1])):
+                return False
+            if st[0] == "for" and (not st[2] or not ok(st[2])):
+                return False
+        return True
+    q = rec(p, ())
+    return q if q and ok(q) else None
+
+
+def deletions(p):
+    paths = stmt_paths(p)
+    out = [(pa, delete_paths(p, [pa])) for pa in paths]
+    return [(pa, c) for pa, c in out if c is not None]
 
 
 def still_fails(ctx, cands, orc, dr, ar, loops):
@@ -1775,17 +1814,24 @@ def still_fails(ctx, cands, orc, dr, ar, loops):
     return out
 
 
-def shrink_program(ctx, p, orc, dr, ar, loops, rounds=8):
+def shrink_program(ctx, p, orc, dr, ar, loops, rounds=10):
     if has_def(p):
         return None
     best = None
     for _ in range(rounds):
-        cands = deletions(p)[:48]
-        res = still_fails(ctx, cands, orc, dr, ar, loops)
-        keep = [(c, r) for c, r in zip(cands, res) if r is not None]
+        cands = deletions(p)[:64]
+        res = still_fails(ctx, [c for _, c in cands], orc, dr, ar, loops)
+        keep = [(pa, c, r) for (pa, c), r in zip(cands, res) if r is not None]
         if not keep:
             break
-        p, best = min(keep, key=lambda cr: len(cr[1][0]))
+        # all deletions that keep the failure, at once; else the one that leaves the shortest script
+        both = delete_paths(p, [pa for pa, _, _ in keep]) if len(keep) > 1 else None
+        if both is not None:
+            r = still_fails(ctx, [both], orc, dr, ar, loops)[0]
+            if r is not None:
+                p, best = both, r
+                continue
+        _, p, best = min(keep, key=lambda k: len(k[2][0]))
     return None if best is None else (p,) + best
 
 
